@@ -395,6 +395,51 @@ fn sweep_year_edge_days(tabs: &Tables, rec: &Recorder, kf1_open: bool) -> Tally 
     t
 }
 
+/// numeric thresholds of the day times and offsets themselves: +-(2^k - 1, 2^k, 2^k + 1) for every k, whole hours at the
+/// 24 h / 48 h / 7 d marks; (a) every pair of such day times on eight day pairs, (b) every pair of such offsets x four
+/// day-time pairs. The quick alphabets know nine day times and nine offset pairs; an implementation that narrows a day
+/// time or an offset (i16 holds 9 h 6 min, 2^17 s = 36 h 24 min 32 s) or takes a shortcut for "ordinary" values is only
+/// seen with values on both sides of every such threshold.
+fn sweep_time_grid(tabs: &Tables, rec: &Recorder, thorough: bool, kf1_open: bool) -> Tally {
+    let (ts, os) = (grid_times(), grid_offsets());
+    let pairs = grid_day_pairs();
+    let (yf, yt) = if thorough { (2000, 2099) } else { (2000, 2027) };
+    let mut specs: Vec<RuleSpec> = vec![];
+    for &(a, b) in &pairs {
+        for &st in &ts {
+            for &et in &ts {
+                specs.push(spec(a, b, st, et, (0, H)));
+            }
+        }
+    }
+    let n_times = specs.len();
+    let time_pairs = [(2 * H, 2 * H), (0, 24 * H), (-H, 25 * H), (26 * H, -2 * H)];
+    for (i, &(a, b)) in pairs.iter().enumerate() {
+        for &so in &os {
+            for &dof in &os {
+                // every pair on two day pairs, one day-time pair in rotation elsewhere
+                for (k, &(st, et)) in time_pairs.iter().enumerate() {
+                    if thorough || i < 2 || (so + dof + i as i64).rem_euclid(4) as usize == k {
+                        specs.push(spec(a, b, st, et, (so, dof)));
+                    }
+                }
+            }
+        }
+    }
+    let t = specs
+        .par_iter()
+        .map(|r| {
+            let mut tl = Tally::default();
+            if let Err(m) = guard(|| check_rule(tabs, r, yf, yt, rec, "time_grid", &mut tl, kf1_open)) {
+                rec.violation("time_grid", json!({"kind":"rule","rule":spec_json(r),"t":null,"year":yf}), json!("no panic"), json!(m));
+            }
+            tl
+        })
+        .reduce(Tally::default, Tally::merge);
+    rec.sub("time_grid", json!({"day_times": ts.len(), "offsets": os.len(), "rules_time_pairs": n_times, "rules_offset_pairs": specs.len() - n_times, "explored": t.rules, "refused_by_constructor": t.rejected, "not_interleaving_or_degenerate": t.skipped_class, "probes": t.evals, "years": [yf, yt]}));
+    t
+}
+
 /// years far from the explored 400-year window: the rule model is periodic in the year, an implementation need not be (an
 /// estimate that drifts, a narrowing of the year): every year 2400..=12 000 and every 99 991st year of the i32 range for 72
 /// rules, six probes per year
@@ -718,6 +763,9 @@ pub fn run(args: &Args) -> i32 {
     }
     if !args.digest_mode {
         total = total.merge(sweep_far_years(&cyc, &rec, thorough));
+    }
+    if !args.digest_mode {
+        total = total.merge(sweep_time_grid(&tabs, &rec, thorough, kf1_open));
     }
     // C19 digest mode: the partial-tie family is left to C04 itself
     if !args.digest_mode {
